@@ -303,6 +303,7 @@ func (p *point) evalTx() {
 				evid.Count("tx.accepted." + tn)
 			}
 			evid.NonTrivial(fmt.Sprintf("tx|%s|%s|%v|%s|%s", tn, kindNames[kind], c.labels, verdictName, p.stateClass()))
+			evid.Sample("object.tx", fmt.Sprintf("tx|%s|%s|%v|%s|%s", tn, kindNames[kind], c.labels, verdictName, p.stateClass()))
 			if kind == validation.InBlockTx {
 				reachedInBlock = true
 			}
@@ -346,6 +347,7 @@ func (p *point) evalTx() {
 	if reachedInBlock {
 		evid.Count("block.tx_reached_validator." + tn)
 		evid.NonTrivial(fmt.Sprintf("blocktx|%s|%s|%v|%v|%s", tn, mode, c.labels, err == nil, p.stateClass()))
+		evid.Sample("object.blocktx", fmt.Sprintf("blocktx|%s|%s|%v|%v|%s", tn, mode, c.labels, err == nil, p.stateClass()))
 	}
 	if err == nil {
 		evid.Count("block.with_hostile_tx.accepted")
